@@ -197,4 +197,6 @@ pub fn run(ctx: &mut Ctx) {
 
     // hidden per-thread state: two-step histories from the initial state
     crate::history::two_step_histories(ctx, "C11", crate::history::Family::Round);
+    crate::history::alternating_with_anchor(ctx, "C11", crate::history::Family::Round);
+    crate::history::first_call_in_fresh_process(ctx, "C11", crate::history::Family::Round);
 }
